@@ -2806,6 +2806,7 @@ void vm_execute_slide(vm * machine, bytecode * code)
 {
     if (code->slide.q == 0)
     {
+        gc_run(machine->collector, machine->stack, machine->sp + 1, machine->gp);
         return;
     }
 
